@@ -66,6 +66,8 @@ def gen_random(rng, chk, nops):
     chk.bump("flags:" + (flags.strip() or "notifiers"))
     universe = rng.choice([8, 30, 200, 2000])
     nulls = rng.choice([0, 0, 0, 0.1, 0.3])          # NULL (integer 0 / no payload) as key and as value
+    oom = rng.choice([0, 0, 0.05, 0.25])             # inserts attempted while the allocator is out of memory
+    chk.bump("oom:%s" % oom)
     chk.bump("nulls:%s" % nulls)
     ops = ["new %s%s" % (ty, flags)]
     present = set()
@@ -85,7 +87,13 @@ def gen_random(rng, chk, nops):
             k = rng.randrange(1, universe + 1)
         pins = 0.25 if style == "delete-heavy" and len(present) > universe // 3 else 0.55
         if r < pins:
-            if nulls and rng.random() < nulls:
+            if oom and rng.random() < oom:
+                ops.append("insf %d" % k)
+                if k not in present:
+                    if nops <= 80 or rng.random() < 0.3:
+                        ops.append("shape")
+                    continue
+            elif nulls and rng.random() < nulls:
                 w = rng.choice(["insv", "insv", "insk", "inskv"])
                 if w == "insv":
                     ops.append("insv %d" % k)
@@ -117,6 +125,20 @@ def gen_random(rng, chk, nops):
     return ops
 
 
+def oom_cases():
+    """an insert that fails for lack of memory between every pair of steps of small build-ups, then growth on either side"""
+    cases = []
+    for ty in TYPES:
+        for base in ([2, 1], [1, 2], [2, 1, 3], [4, 2, 6, 1], [4, 2, 6, 7], [4, 2, 6, 1, 3, 5, 7]):
+            for newk in (0.5, 1.5, 2.5, 3.5, 5.5, 7.5):
+                scale = lambda x: int(x * 2)
+                ops = ["new %s" % ty] + ["ins %d" % scale(k) for k in base] + ["insf %d" % scale(newk), "shape"]
+                for grow in ([scale(min(base)) - 1 if scale(min(base)) > 1 else 30, 31, 32], [40, 39, 38], [scale(newk)]):
+                    cases.append(ops + [x for g in grow for x in ("ins %d" % g, "shape")] + ["each 0", "clear"])
+            cases.append(["new %s" % ty] + ["ins %d" % scale(k) for k in base] + ["insf %d" % scale(base[0]), "shape", "each 0", "clear"])
+    return cases
+
+
 def null_cases():
     """NULL is a legal key and a legal value: every position of a 7-node tree (leaf, one child after a removal, two
     children incl. the root) holds the NULL value / the NULL key once, then is replaced, removed, cleared"""
@@ -144,7 +166,7 @@ def run(chk, prop, view, modules, label):
     fam.keep_prefix = 1      # the `new …` line is the case's configuration, never shrunk away
     thorough = chk.tier == "thorough"
     rng = chk.rng
-    cases = pv.load_corpus("trees") + pv.load_corpus(prop) + null_cases()
+    cases = pv.load_corpus("trees") + pv.load_corpus(prop) + null_cases() + oom_cases()
     ex = list(exhaustive_seqs(4 if thorough else 3))
     nk = 5 if thorough else 4
     exo = list(exhaustive_orders(nk))
